@@ -386,7 +386,12 @@ def r10_2(ctx):
             )
         else:
             ctx.ok("R10.2", where(wc), f"loop @{lp.lineno}: only early `return True` (a conflict with any running command suffices)")
-    ctx.floor("R10.2b", n_loops, 4, "loops over executing_tasks in would_conflict")
+    # `return any(<test on cmd> for cmd in self.executing_tasks)` is the same scan with the any-shape built in
+    for c in calls_in(wc.node):
+        if isinstance(c.func, ast.Name) and c.func.id == "any" and c.args and isinstance(c.args[0], (ast.GeneratorExp, ast.ListComp)) and "executing_tasks" in norm(c.args[0].generators[0].iter):
+            n_loops += 1
+            ctx.ok("R10.2", where(wc), f"any(...) over the executing commands @{c.lineno}")
+    ctx.floor("R10.2b", n_loops, 5, "scans of executing_tasks in would_conflict (loops and any())")
     # (c) extracted relation vs required table
     ctx.exhaustive_rules.add("R10.2c")
     cells = 0
